@@ -36,6 +36,9 @@ CLAIMED = {
     "C10": ("runtime monitoring: TDLearningEventListener probe reads (s,a,r,ns,na) and the live Q-table(s) from the learner's locals at every time step, validates the step against the model and compares the whole live table with a shadow table advanced by the published update rule (online reference-model monitor); final table, bounds and greedy policy checked at the boundary",
             "Held-on-K-executions over sampled histories (seeds) of all four learners. Exploration: the property quantifies over all experienced histories.",
             "shadow table implements the rules as published in the class docstrings; float64 at 1e-12", "§4 C10"),
+    "C17": ("runtime monitoring: RMAXEventListener probe validates every experienced step against the model and records the experience; oracle rebuilds the empirical model from the first m samples of each pair and checks optimism / empirical Bellman equation / greedy policy on the returned Q",
+            "Held-on-K-executions over sampled histories (seeds), thresholds and episode counts. Exploration: all-histories property.",
+            "rmax taken from np.max(mdp.reward_matrix) (the algorithm's asserted precondition); float64", "§4 C17"),
 }
 
 PENDING_REASON = "check not built yet in this round (design in DESIGN.md §4); not claimed until its monitor exists and is silent on the unchanged tree"
